@@ -39,6 +39,7 @@ pub struct RunReport {
     pub steps: u64,
     pub trace: Vec<String>,
     pub overrun: bool,
+    pub focus: Option<u64>,
 }
 
 pub fn run_seed_for(seed: u64, property: &str, index: u64) -> u64 {
@@ -46,7 +47,12 @@ pub fn run_seed_for(seed: u64, property: &str, index: u64) -> u64 {
 }
 
 pub fn execute(check: &Check, run_seed: u64, index: u64, thorough: bool, ch: Chooser, keep_trace: bool) -> RunReport {
+    execute_focused(check, run_seed, index, thorough, ch, keep_trace, None)
+}
+
+pub fn execute_focused(check: &Check, run_seed: u64, index: u64, thorough: bool, ch: Chooser, keep_trace: bool, focus: Option<u64>) -> RunReport {
     let mut cx = Cx::new(run_seed, index, thorough, ch);
+    cx.focus = focus;
     if !keep_trace {
         cx.trace_cap = 0;
     }
@@ -67,6 +73,7 @@ pub fn execute(check: &Check, run_seed: u64, index: u64, thorough: bool, ch: Cho
         steps: cx.steps,
         trace: std::mem::take(&mut cx.trace),
         overrun: cx.ch.overrun,
+        focus,
     }
 }
 
@@ -130,8 +137,8 @@ pub fn glob(pat: &str, s: &str) -> bool {
 
 // ---------------------------------------------------------------- minimisation
 
-fn reproduces(check: &Check, base: &RunReport, thorough: bool, vals: &[u64], key: &str) -> Option<RunReport> {
-    let r = execute(check, base.run_seed, base.index, thorough, Chooser::replay(vals.to_vec()), true);
+fn reproduces(check: &Check, base: &RunReport, thorough: bool, vals: &[u64], key: &str, focus: Option<u64>) -> Option<RunReport> {
+    let r = execute_focused(check, base.run_seed, base.index, thorough, Chooser::replay(vals.to_vec()), true, focus);
     if r.violations.iter().any(|v| v.key == key && v.property == check.property) { Some(r) } else { None }
 }
 
@@ -140,14 +147,30 @@ pub fn minimise(check: &Check, base: RunReport, thorough: bool, key: &str, max_e
     let t0 = Instant::now();
     let mut execs = 0u32;
     let mut cur: Vec<u64> = base.choices.iter().map(|c| c.value).collect();
-    let mut best = match reproduces(check, &base, thorough, &cur, key) {
+    let mut best = match reproduces(check, &base, thorough, &cur, key, None) {
         Some(r) => r,
         None => return base, // not reproducible from its own choices: keep as is (replay will say so)
     };
-    let mut try_cand = |cand: &Vec<u64>, execs: &mut u32| -> Option<RunReport> {
+    // focus on the one catalogue item that fails, if the violation carries one and the
+    // violation persists when every other item is skipped
+    let mut focus: Option<u64> = None;
+    if let Some(it) = best.violations.iter().find(|v| v.key == key).and_then(|v| v.item) {
+        if let Some(r) = reproduces(check, &base, thorough, &cur, key, Some(it)) {
+            focus = Some(it);
+            best = r;
+            cur = best.choices.iter().map(|c| c.value).collect();
+        }
+    }
+    let try_cand = |cand: &Vec<u64>, execs: &mut u32| -> Option<RunReport> {
         if *execs >= max_exec || t0.elapsed().as_secs_f64() > max_s { return None; }
         *execs += 1;
-        reproduces(check, &base, thorough, cand, key)
+        // the item number of the failing frame may move when the workload shrinks: follow it
+        if focus.is_some() {
+            let r = reproduces(check, &base, thorough, cand, key, None)?;
+            let it = r.violations.iter().find(|v| v.key == key).and_then(|v| v.item)?;
+            return reproduces(check, &base, thorough, cand, key, Some(it));
+        }
+        reproduces(check, &base, thorough, cand, key, None)
     };
     // pass 1: truncate the tail (missing entries read as 0)
     let mut lo = 0usize;
@@ -211,6 +234,7 @@ pub fn write_replay(check: &Check, r: &RunReport, thorough: bool, key: &str, see
         "violation_key": key,
         "violation_detail": v.first().map(|v| v.detail.clone()).unwrap_or_default(),
         "expected_log_hash": r.log_hash,
+        "focus_item": r.focus,
         "choices": r.choices.iter().map(|c| json!([c.label, c.bound, c.value])).collect::<Vec<_>>(),
         "trace": r.trace,
         "how_to_replay": format!("./zk replay {path}"),
@@ -230,7 +254,8 @@ pub fn replay(checks: &[&Check], path: &str) -> i32 {
     let index = j["run_index"].as_u64().unwrap_or(0);
     let key = j["violation_key"].as_str().unwrap_or("").to_string();
     let vals: Vec<u64> = j["choices"].as_array().map(|a| a.iter().map(|c| c[2].as_u64().unwrap_or(0)).collect()).unwrap_or_default();
-    let r = execute(check, run_seed, index, thorough, Chooser::replay(vals), true);
+    let focus = j["focus_item"].as_u64();
+    let r = execute_focused(check, run_seed, index, thorough, Chooser::replay(vals), true, focus);
     for l in &r.trace { println!("  | {l}"); }
     let hit = r.violations.iter().find(|v| v.key == key);
     match hit {
@@ -355,14 +380,14 @@ pub fn run_check(check: &Check, thorough: bool, seed: u64) -> i32 {
             // the run already served another key: re-execute it
             let rs = run_seed_for(seed, check.property, *idx);
             let r = execute(check, rs, *idx, thorough, Chooser::random(rs), true);
-            let m = minimise(check, r, thorough, key, 120, 40.0);
+            let m = minimise(check, r, thorough, key, 40, 12.0);
             let p = write_replay(check, &m, thorough, key, seed);
             println!("violation: {key}");
             println!("VIOLATION property={} replay={}", check.property, p);
             replay_paths.push(p);
             continue;
         };
-        let m = minimise(check, base, thorough, key, 120, 40.0);
+        let m = minimise(check, base, thorough, key, 40, 12.0);
         let p = write_replay(check, &m, thorough, key, seed);
         if let Some(v) = m.violations.iter().find(|v| &v.key == key) {
             println!("violation: {} :: {}", v.key, v.detail);
